@@ -24,6 +24,35 @@ args, 3 directory forms x 9 targets). Full product (thorough): name x (all forms
 contents x args, symlink x 9 targets x contents). Forms the host file system refuses (probed once per worker) are
 skipped and reported. Directories that exist before and after a layout (root, store/, the real directory component of
 dirext/dotdot) are scaffold; the router is asked before and after the FILES and LINKS exist.
+
+Space N (nested dispatch) x configurations: read_file is not the only place where a name is handed to the router and the
+bytes to the extractor it answers - archive members (read_archive) and mail attachments
+(EmailContent.iterate_supported_attachments) are dispatched the same way. With the same spy extractors every PART of a
+container must reach exactly [get_extractor(name of the part)] - once, iff is_supported_file(name) - and, for a documented
+extension, the documented extractor (clause member); an attachment of a supported declared type whose name the router knows
+must reach get_extractor(name), and every attachment must be treated as it is when it is the only one of its mail (clause
+attachment: the decision is a function of the part, not of its siblings or their order). Alphabet:
+  containers  zip, tar, tar.gz, tar.bz2, tar.xz, 7z (reference writers verif/gen/zipforge, tarforge, sevenz);
+  member names  catalogue = directory prefix ("", "d/", "d.docx/e.x/") x (every extension of the default-configuration
+              universe [documented, README, platform mimetypes, junk] in lower and UPPER case with stem "a"; every documented /
+              compound / undocumented extension with the stems blank, non-ASCII, inner dot, inner documented extension, leading
+              dot (hidden) and in Title case [thorough: all case variants]; extension-less names; __MACOSX/ names);
+  archives    one catalogue per prefix (quick: 3 prefixes for zip and tar, 1 for the others); every documented name (lower,
+              UPPER [thorough: case variants]) ALONE in zip, tar, 7z [thorough: all 6]; ordered PAIRS of the representative
+              names (one per documented extractor + 2 undocumented + extension-less = 24) in zip [thorough: of all 63 lower-case
+              names in zip, tar, 7z; representative in the compressed tars]; one base name in two directories; a name next to
+              its hidden twin;
+  attachments (name, declared type) with declared type in every MIME type of the library's mapping + octet-stream + an
+              unknown type; the is_supported_mime_type flag is what the library's own function says. Data class: every name x
+              every type alone; per type all ordered pairs with repetition of representative names [thorough: of all 63];
+              per representative name ordered pairs of types (all for names the reference router does not know, ring successor
+              for the others [thorough: all]); two names with a fitting type each; thorough: triples of representative names
+              per type (default configuration). Real .eml and mbox readers (reference writer verif/gen/mail): per
+              non-composite type one mail with all representative names, in both orders [thorough: + ordered pairs, default
+              configuration]; judged on the names and types the reader reports.
+Not demanded: that hidden members or archives inside archives are opened (if they are, then by the router's extractor); any
+particular treatment of an attachment whose declared type is unsupported or whose name the router does not know (only
+sibling independence).
 """
 from __future__ import annotations
 
@@ -245,21 +274,31 @@ def _part(arg):
     return {"ev": ev, "fails": fails, "outs": outs, "samples": samples}
 
 
-def _install_spies():
-    """Replace every registered extractor by a spy generator that records (module, function); returns the record list."""
+_ORIG = {}      # (module, function) -> the library's own extractor, kept when the first spy replaces it in this process
+
+
+def _install_spies(rich=None):
+    """Replace every registered extractor by a spy generator that records (module, function); returns the record list.
+    `rich` (a list) additionally receives (module, function, path argument, file-like argument) of every call."""
     import importlib
     from sharepoint2text.parsing import router
     called = []
     for ft, (mod, fn) in router._EXTRACTOR_REGISTRY.items():
         m = importlib.import_module(mod)
+        cur = getattr(m, fn)
+        if not getattr(cur, "_verif_spy", False):
+            _ORIG[(mod, fn)] = cur
 
         def mk(mod=mod, fn=fn):
             def stub(file_like, path=None):
                 called.append((mod, fn))
+                if rich is not None:
+                    rich.append((mod, fn, path, file_like))
                 return
                 yield
             stub.__name__ = fn
             stub.__module__ = mod
+            stub._verif_spy = True
             return stub
         setattr(m, fn, mk())
     return called
@@ -608,6 +647,390 @@ def _fs_one(arg):
         shutil.rmtree(base, ignore_errors=True)
 
 
+# ---------------------------------------------------------------------------------------------------------------------
+# Space N: nested dispatch. Besides read_file the library has two more places where a NAME is handed to the router and the
+# bytes to whatever it answers: the members of an archive (read_archive) and the attachments of a mail
+# (EmailContent.iterate_supported_attachments). "Extension decides" and "dispatches to the same extractor" are judged there
+# with the same spies: a part reaches exactly the extractor get_extractor(name of the part) names - whatever its siblings
+# are, whatever their order, whatever the container.
+ND_CONTAINERS = ("zip", "tar", "tar.gz", "tar.bz2", "tar.xz", "7z")
+ND_DIRS = ("", "d/", "d.docx/e.x/")
+ND_STEMS = ("a b", "ä", "a.b", "a.pdf", ".h")
+ND_EXTRA_MIMES = ("application/octet-stream", "application/x-verif-unknown")
+ND_ENTRIES = ("dataclass", "eml", "mbox")
+_ARCHIVE_FN = (_EX + "archive_extractor", "read_archive")
+_EML_FN = (_EX + "mail.eml_email_extractor", "read_eml_format_mail")
+_MBOX_FN = (_EX + "mail.mbox_email_extractor", "read_mbox_format_mail")
+
+
+def _route(p):
+    """(is_supported_file answer, (module, function) | 'unsupported' | 'raised X') of the router for one string."""
+    import sharepoint2text
+    from sharepoint2text.parsing.exceptions import ExtractionFileFormatNotSupportedError
+    try:
+        s = sharepoint2text.is_supported_file(p)
+    except Exception as e:  # noqa
+        s = f"raised {type(e).__name__}"
+    try:
+        f = sharepoint2text.get_extractor(p)
+        return s, (f.__module__, f.__name__)
+    except ExtractionFileFormatNotSupportedError:
+        return s, "unsupported"
+    except Exception as e:  # noqa
+        return s, f"raised {type(e).__name__}"
+
+
+def _nd_exts():
+    return sorted(REF) + [c[1:] for c in COMPOUND] + list(FS_UNDOC)
+
+
+def _nd_rep_names():
+    """One name per documented extractor (its first extension in sorted order), two undocumented ones (one of them is routed
+    by the hostile MIME configuration) and a name without extension."""
+    first = {}
+    for e in sorted(REF):
+        first.setdefault(REF[e], e)
+    return ["a." + e for e in sorted(first.values())] + ["a.bak", "a.zz3", FS_NOEXT]
+
+
+def _nd_names(tier):
+    """Names that are judged alone (and, thorough, in pairs): every documented extension and alias, the compound forms,
+    the undocumented ones; lower and UPPER case (thorough: the case variants of the other families too)."""
+    out = []
+    for e in _nd_exts():
+        vs = [e, e.upper()] if tier == "quick" else case_variants(e)[:6] + [e.upper()]
+        out += ["a." + v for v in vs]
+    return sorted(set(out)) + [FS_NOEXT]
+
+
+def _nd_catalogue(d, universe, tier):
+    """Member names of one catalogue archive: directory prefix d x (every extension of the universe in lower and UPPER
+    case with stem a; every documented/compound/undocumented extension with 5 further stems - blank, non-ASCII, inner dot,
+    inner documented extension, leading dot = hidden - and in Title case; names without extension)."""
+    names = []
+    for e in universe:
+        if not e or any(ord(ch) < 32 or ch in "/\\" for ch in e):
+            continue
+        names += [f"{d}a.{e}", f"{d}a.{e.upper()}"]
+    for e in _nd_exts():
+        for st in ND_STEMS:
+            names.append(f"{d}{st}.{e}")
+        names += [f"{d}a.{v}" for v in ([e.title()] if tier == "quick" else case_variants(e))]
+    names += [d + "a", d + "docx", d + "a."]
+    if not d:
+        names += ["__MACOSX/a.docx", "__MACOSX/d/a.txt"]
+    return sorted(set(names))
+
+
+def _nd_mimes():
+    from sharepoint2text.parsing.mime_types import MIME_TYPE_MAPPING
+    return sorted(MIME_TYPE_MAPPING) + list(ND_EXTRA_MIMES)
+
+
+def _nd_natural(name, mimes):
+    """A declared type that fits the name: the first mapped MIME type whose file type is the name's (base) extension."""
+    from sharepoint2text.parsing.mime_types import MIME_TYPE_MAPPING
+    e = ref_ext(name)
+    for m in mimes:
+        if MIME_TYPE_MAPPING.get(m) in (e, ALIAS_BASE.get(e)):
+            return m
+    return "text/plain"
+
+
+def nd_cases(tier):
+    """Yield every container of the tier (nd dicts)."""
+    quick = tier == "quick"
+    rep = _nd_rep_names()
+    names = _nd_names(tier)
+    wide = rep if quick else ["a." + e for e in _nd_exts()] + [FS_NOEXT]
+    # --- archives
+    for c in ND_CONTAINERS:
+        for d in (ND_DIRS if (c in ("zip", "tar") or not quick) else ND_DIRS[1:2]):
+            yield {"kind": "archive", "container": c, "family": "catalogue", "dir": d}
+    for c in (("zip", "tar", "7z") if quick else ND_CONTAINERS):
+        for nm in names:
+            yield {"kind": "archive", "container": c, "family": "list", "names": [nm]}
+    for c in (("zip",) if quick else ND_CONTAINERS):
+        for a, b in itertools.permutations(wide if c in ("zip", "tar", "7z") else rep, 2):
+            yield {"kind": "archive", "container": c, "family": "list", "names": [a, b]}
+        for nm in rep:                                   # the same base name in two directories, and next to its hidden twin
+            yield {"kind": "archive", "container": c, "family": "list", "names": ["d/" + nm, "e/" + nm]}
+            yield {"kind": "archive", "container": c, "family": "list", "names": ["." + nm, nm]}
+    # --- attachments (data class)
+    mimes = _nd_mimes()
+    for nm in names:
+        for m in mimes:
+            yield {"kind": "atts", "entry": "dataclass", "seq": [[nm, m]]}
+    for m in mimes:                                      # one declared type, two names (ordered, with repetition)
+        for a, b in itertools.product(wide, repeat=2):
+            yield {"kind": "atts", "entry": "dataclass", "seq": [[a, m], [b, m]]}
+    for nm in rep:                                       # one name, two declared types
+        routable = ref_ext(nm) in REF
+        for i, m1 in enumerate(mimes):
+            for m2 in ([mimes[(i + 1) % len(mimes)]] if (routable and quick) else mimes):
+                yield {"kind": "atts", "entry": "dataclass", "seq": [[nm, m1], [nm, m2]]}
+    for a, b in itertools.product(wide, repeat=2):       # two names, each with a declared type of its own
+        yield {"kind": "atts", "entry": "dataclass", "seq": [[a, _nd_natural(a, mimes)], [b, _nd_natural(b, mimes)]]}
+    if not quick:                                        # three attachments of one declared type
+        for m in mimes:
+            for t in itertools.product(rep, repeat=3):
+                if len(set(t)) > 1:
+                    yield {"kind": "atts", "entry": "dataclass", "seq": [[x, m] for x in t], "only": "default"}
+    # --- attachments through the real .eml / mbox readers: all representative names under one declared type, both orders
+    for entry in ND_ENTRIES[1:]:
+        for m in mimes:
+            if m.startswith(("message/", "multipart/")):
+                continue                                 # the reference mail writer has no composite attachment parts
+            for order in (rep, rep[::-1]):
+                yield {"kind": "atts", "entry": entry, "seq": [[nm, m] for nm in order]}
+            if not quick:
+                for a, b in itertools.permutations(rep, 2):
+                    yield {"kind": "atts", "entry": entry, "seq": [[a, m], [b, m]], "only": "default"}
+
+
+def _nd_pack(container, names):
+    members = [{"name": n, "data": b"x"} for n in names]
+    if container == "zip":
+        from verif.gen import zipforge
+        return zipforge.zip_honest(members)
+    if container == "7z":
+        from verif.gen import sevenz
+        return sevenz.sevenz(members)
+    from verif.gen import tarforge
+    return tarforge.tarforge(members, compression={"tar": None, "tar.gz": "gz", "tar.bz2": "bz2", "tar.xz": "xz"}[container], fmt="pax")
+
+
+def _nd_state(cfg):
+    """Per task: default-configuration extension universe, spies with a rich record, the library's own container readers."""
+    configure("default")
+    universe = extension_universe()
+    configure(cfg)
+    rich = []
+    _install_spies(rich)
+    # the archive reader memoises router answers per process; a task starts from a clean slate (new spies, new configuration)
+    import importlib
+    for v in list(vars(importlib.import_module(_ARCHIVE_FN[0])).values()):
+        if callable(getattr(v, "cache_clear", None)):
+            v.cache_clear()
+    return {"cfg": cfg, "rich": rich, "universe": universe, "alone": {}, "tier": "quick"}
+
+
+def _nd_short(t):
+    return t[1] if isinstance(t, tuple) else t
+
+
+def _nd_archive_eval(nd, st):
+    """One archive: returns [(clause, member, msg)], number of members judged."""
+    import io
+    names = nd["names"] if nd["family"] == "list" else _nd_catalogue(nd["dir"], st["universe"], st["tier"])
+    c = nd["container"]
+    blob = _nd_pack(c, names)
+    rich = st["rich"]
+    del rich[:]
+    shown = f"{c} archive of {len(names)} member(s)"
+    try:
+        list(_ORIG[_ARCHIVE_FN](io.BytesIO(blob), "box." + c))
+    except Exception as e:  # noqa
+        return [("member", names[0], f"read_archive({shown}, first {names[0]!r}) raised {type(e).__name__}: {str(e)[:200]}")], 0
+    got = {}
+    for mod, fn, path, _fl in rich:
+        member = path.split("!/", 1)[1] if isinstance(path, str) and "!/" in path else path
+        got.setdefault(member, []).append((mod, fn))
+    del rich[:]
+    fails = []
+    for member in sorted(set(got) - set(names), key=str):
+        fails.append(("member", names[0], f"{shown}: an extractor was called for {member!r}, which is not a member"))
+    for f in names:
+        b = f.rsplit("/", 1)[-1]
+        s, tgt = _route(b)
+        g = got.get(f, [])
+        e = ref_ext(b)
+        doc = (_EX + REF[e][0], REF[e][1]) if e in REF else None
+        if b.startswith(".") or f.startswith("__MACOSX/") or tgt == _ARCHIVE_FN or doc == _ARCHIVE_FN:
+            # hidden members and archives inside archives: the statement does not say whether they are opened; if they
+            # are, then by the extractor the router names
+            if any(x != tgt for x in g):
+                fails.append(("member", f, f"{shown}: member {f!r} reached {[x[1] for x in g]}, get_extractor({b!r}) gives {_nd_short(tgt)}"))
+            continue
+        exp = [tgt] if isinstance(tgt, tuple) else []
+        if g != exp:
+            fails.append(("member", f, f"{shown}: member {f!r} reached {[x[1] for x in g] or 'no extractor'}, but is_supported_file({b!r}) = {s} and "
+                                       f"get_extractor({b!r}) gives {_nd_short(tgt)}"))
+        elif doc is not None and g != [doc]:
+            fails.append(("member", f, f"{shown}: member {f!r} reached {[x[1] for x in g] or 'no extractor'}, documented {doc[1]}"))
+    return fails, len(names)
+
+
+def _nd_run_atts(pairs, st):
+    """iterate_supported_attachments over fresh EmailAttachment objects: per attachment the list of extractors reached."""
+    import io
+    from sharepoint2text.parsing.extractors.data_types import EmailAddress, EmailAttachment, EmailContent
+    from sharepoint2text.parsing.mime_types import is_supported_mime_type
+    atts = [EmailAttachment(filename=n, mime_type=m, data=io.BytesIO(b"x"), is_supported_mime_type=is_supported_mime_type(m)) for n, m in pairs]
+    return _nd_dispatch(EmailContent(from_email=EmailAddress(), attachments=atts), st)
+
+
+def _nd_dispatch(mail, st):
+    rich = st["rich"]
+    del rich[:]
+    try:
+        list(mail.iterate_supported_attachments())
+    except Exception as e:  # noqa
+        del rich[:]
+        return f"raised {type(e).__name__}: {str(e)[:160]}"
+    per = [[] for _ in mail.attachments]
+    order = []
+    for mod, fn, _path, fl in rich:
+        for i, a in enumerate(mail.attachments):
+            if a.data is fl:
+                per[i].append((mod, fn))
+                order.append(i)
+                break
+        else:
+            order.append(-1)
+    del rich[:]
+    if order != sorted(order) or -1 in order:
+        return f"extractors were called in the order {order} of the attachment list (-1: a stream that is no attachment's)"
+    return per
+
+
+def _nd_alone(n, m, st):
+    key = (n, m)
+    if key not in st["alone"]:
+        r = _nd_run_atts([(n, m)], st)
+        st["alone"][key] = r if isinstance(r, str) else r[0]
+    return st["alone"][key]
+
+
+def _nd_atts_eval(nd, st):
+    """One mail: returns [(clause, index, msg)], number of attachments judged."""
+    import io
+    from sharepoint2text.parsing.mime_types import is_supported_mime_type
+    seq = [tuple(x) for x in nd["seq"]]
+    entry = nd["entry"]
+    if entry == "dataclass":
+        per = _nd_run_atts(seq, st)
+        parsed = seq
+    else:
+        from verif.gen import mail as GM
+        spec = {"structure": "mixed-plain-att-att", "attachments": [{"filename": n, "ctype": m, "data_hex": "78"} for n, m in seq]}
+        data = GM.eml(spec) if entry == "eml" else GM.mbox([spec])
+        try:
+            mails = list(_ORIG[_EML_FN if entry == "eml" else _MBOX_FN](io.BytesIO(data), "m." + entry))
+        except Exception as e:  # noqa
+            return [("attachment", 0, f"{entry} reader raised {type(e).__name__} on a mail with {len(seq)} attachments: {str(e)[:160]}")], 0
+        if len(mails) != 1:
+            return [("attachment", 0, f"{entry} reader returned {len(mails)} mails for one message with {len(seq)} attachments")], 0
+        parsed = [(a.filename, a.mime_type) for a in mails[0].attachments]
+        flags = [a.is_supported_mime_type for a in mails[0].attachments]
+        # judged on the names and declared types the reader reports (it lower-cases the type); how a mail is parsed into
+        # attachments is another property's subject
+        if [n for n, _ in parsed] != [n for n, _ in seq] or flags != [is_supported_mime_type(m) for _, m in parsed]:
+            st["incomparable"] = st.get("incomparable", 0) + 1
+            return [], 0
+        per = _nd_dispatch(mails[0], st)
+    shown = f"{entry} mail with attachments {[list(x) for x in seq[:4]]}" + (f" ... ({len(seq)})" if len(seq) > 4 else "")
+    if isinstance(per, str):
+        return [("attachment", 0, f"{shown}: iterate_supported_attachments {per}")], 0
+    fails = []
+    for i, (n, m) in enumerate(parsed):
+        g = per[i]
+        s, tgt = _route(n)
+        if is_supported_mime_type(m) and isinstance(tgt, tuple) and g != [tgt]:
+            fails.append(("attachment", i, f"{shown}: attachment #{i} {n!r} ({m}) reached {[x[1] for x in g] or 'no extractor'}, get_extractor({n!r}) gives {tgt[1]}"))
+            continue
+        if len(parsed) > 1 or entry != "dataclass":
+            al = _nd_alone(n, m, st)
+            if g != al:
+                fails.append(("attachment", i, f"{shown}: attachment #{i} {n!r} ({m}) reached {[x[1] for x in g] or 'no extractor'} here and "
+                                               f"{[x[1] for x in al] if not isinstance(al, str) else al or 'no extractor'} as the only attachment of a mail"))
+    return fails, len(parsed)
+
+
+def _nd_eval(nd, st):
+    if nd.get("only") and nd["only"] != st["cfg"]:
+        return [], 0
+    return _nd_archive_eval(nd, st) if nd["kind"] == "archive" else _nd_atts_eval(nd, st)
+
+
+def _nd_wrap(nd, target):
+    nd = dict(nd)
+    if nd["kind"] == "archive":
+        nd["member"] = target
+        b = str(target).rsplit("/", 1)[-1]
+        return {"path": target, "class": ["member", nd["container"], classify(b, "")[0]], "via": "nd", "nd": nd}
+    nd["index"] = target
+    return {"path": nd["seq"][target][0], "class": ["attachment", nd["entry"]], "via": "nd", "nd": nd}
+
+
+def _nd_part(arg):
+    tier, cfg, k, n, seed = arg
+    st = _nd_state(cfg)
+    st["tier"] = tier
+    ev = parts = 0
+    fails = []
+    outs = {}
+    per_kind = {}
+    last = None
+    for i, nd in enumerate(nd_cases(tier)):
+        if i % n != k:
+            continue
+        f, np_ = _nd_eval(nd, st)
+        if not np_ and not f:
+            continue
+        if nd.get("family") == "catalogue":
+            nd = dict(nd, tier=tier)
+        ev += 1
+        parts += np_
+        if ev % 5000 == 0:
+            P.note(("nd", cfg, k, ev))
+        key = nd["kind"] + ":" + (nd["container"] + ":" + nd["family"] if nd["kind"] == "archive" else nd["entry"] + ":" + str(len(nd["seq"])))
+        per_kind[key] = per_kind.get(key, 0) + 1
+        for clause, target, msg in f:
+            fails.append((clause, cfg, _nd_wrap(nd, target), msg))
+        last = nd
+    samples = [{"config": cfg, "nested": last}] if k == 0 and last else []
+    return {"ev": ev, "fails": fails, "outs": outs, "samples": samples, "per_kind": per_kind, "parts": parts, "incomparable": st.get("incomparable", 0)}
+
+
+def _nd_one(arg):
+    cfg, case = arg
+    st = _nd_state(cfg)
+    nd = dict(case["nd"])
+    st["tier"] = nd.pop("tier", "quick")
+    nd.pop("only", None)
+    target = nd.pop("member", None) if nd["kind"] == "archive" else nd.pop("index", None)
+    return [(c, m) for c, t, m in _nd_eval(nd, st)[0] if t == target]
+
+
+def _nd_shrinks(case):
+    nd = case["nd"]
+    out = []
+    if nd["kind"] == "archive":
+        f = nd["member"]
+        names = nd["names"] if nd["family"] == "list" else None
+        base = {"kind": "archive", "container": nd["container"], "family": "list"}
+        if names is None or len(names) > 1:
+            out.append(_nd_wrap(dict(base, names=[f]), f))
+        if names is not None and len(names) > 2:
+            for x in names:
+                if x != f:
+                    out.append(_nd_wrap(dict(base, names=[y for y in names if y != x]), f))
+        if names is not None:
+            b = f.rsplit("/", 1)[-1]
+            for g in (b, "a" + _fs_suffix(b), f.lower()):      # no directory, plain stem, lower case (the container kind stays)
+                if g != f and g not in names:
+                    out.append(_nd_wrap(dict(base, names=[g if y == f else y for y in names]), g))
+        return out
+    seq, i = nd["seq"], nd["index"]
+    for j in range(len(seq)):
+        if j != i:
+            out.append(_nd_wrap({"kind": "atts", "entry": nd["entry"], "seq": seq[:j] + seq[j + 1:]}, i - (j < i)))
+    if nd["entry"] != "dataclass":
+        out.append(_nd_wrap({"kind": "atts", "entry": "dataclass", "seq": seq}, i))
+    return out
+
+
 _REEXEC_POOL = []
 
 
@@ -622,9 +1045,21 @@ def _fs_single(cfg, fs):
     return [tuple(x) for x in r]
 
 
+def _nd_single(cfg, case):
+    if not _REEXEC_POOL:
+        _REEXEC_POOL.append(P.Pool(1))
+    res = _REEXEC_POOL[0].map("verif.props.C07", "_nd_one", [(cfg, case)], hard_timeout=600)
+    st, r, _ = res[0]
+    if st != "done":
+        raise RuntimeError(f"nested-dispatch re-execution failed: {st}: {str(r)[-300:]}")
+    return [tuple(x) for x in r]
+
+
 def reexec(fmt, case):
     if case.get("via") == "fs":
         return _fs_single(fmt, case["fs"])
+    if case.get("via") == "nd":
+        return _nd_single(fmt, case)
     configure(fmt)
     p = case["path"]
     if case.get("via") == "readfile":
@@ -652,6 +1087,8 @@ def _readfile_single(cfg, nm):
 
 
 def shrinks(case):
+    if case.get("via") == "nd":
+        return _nd_shrinks(case)
     if case.get("via") != "fs":
         return []
     fs = case["fs"]
@@ -687,6 +1124,10 @@ def run(ctx):
     args3 = [(ctx.tier, c, k, nf, ctx.seed) for c in cfgs for k in range(nf)]
     random.Random(ctx.seed + 1).shuffle(args3)
     res3 = P.run_all("verif.props.C07", "_fs_part", args3, n=ctx.ncpu, hard_timeout=1800)
+    nn = 2 if ctx.quick else 16
+    args4 = [(ctx.tier, c, k, nn, ctx.seed) for c in cfgs for k in range(nn)]
+    random.Random(ctx.seed + 2).shuffle(args4)
+    res4 = P.run_all("verif.props.C07", "_nd_part", args4, n=ctx.ncpu, hard_timeout=1800)
     ev = 0
     fails = []
     outs = {}
@@ -696,7 +1137,9 @@ def run(ctx):
     fs_ev = 0
     fs_forms = {}
     fs_skipped = set()
-    for (st, r, _), a in list(zip(res, args)) + list(zip(res2, [(ctx.tier, c, "rf") for c in cfgs])) + list(zip(res3, args3)):
+    nd_ev = nd_parts = nd_incomp = 0
+    nd_kinds = {}
+    for (st, r, _), a in list(zip(res, args)) + list(zip(res2, [(ctx.tier, c, "rf") for c in cfgs])) + list(zip(res3, args3)) + list(zip(res4, args4)):
         if st != "done":
             herr.append(f"task {a} failed: {st}: {str(r)[-500:]}")
             continue
@@ -705,6 +1148,12 @@ def run(ctx):
             fs_skipped |= set(r["skipped"])
             for k_, v in r["per_form"].items():
                 fs_forms[k_] = fs_forms.get(k_, 0) + v
+        if "per_kind" in r:
+            nd_ev += r["ev"]
+            nd_parts += r["parts"]
+            nd_incomp += r["incomparable"]
+            for k_, v in r["per_kind"].items():
+                nd_kinds[k_] = nd_kinds.get(k_, 0) + v
         ev += r["ev"]
         per_cfg[a[1]] = per_cfg.get(a[1], 0) + r["ev"]
         fails += [tuple(x) for x in r["fails"]]
@@ -717,6 +1166,8 @@ def run(ctx):
                    "compound forms, data: URLs for every mapped MIME type; under 3 mimetypes configurations (default, empty, hostile); "
                    "plus read_file on real temp files with spy extractors; plus filesystem layouts (names x forms x targets x contents x "
                    "argument kinds, see fs_family) judged for router independence of the disk state and read_file == get_extractor; "
+                   "plus nested dispatch (archive members, mail attachments, see nested_family): every part reaches exactly "
+                   "get_extractor(its name), alone and next to siblings; "
                    "distinct_nontrivial = distinct (supported?, extractor) outcomes",
            "fs_family": {"evaluations": fs_ev, "names": dict(zip(("full_product", "quick_product"), map(len, _fs_names(ctx.tier)))), "forms": list(FS_FORMS), "targets": list(FS_TARGETS),
                          "contents": sorted(FS_CONTENTS), "args": list(FS_ARGS), "per_form": dict(sorted(fs_forms.items())),
@@ -724,9 +1175,28 @@ def run(ctx):
                          "bounds": "quick_product names x (file x 13 contents + file x 3 other args + 7 link/dir forms x 9 targets + symlink x 3 "
                                    "targets x 3 other args); full_product names (thorough only) x (file x 13 contents x 4 args + 7 link/dir "
                                    "forms x 9 targets x 4 args + symlink x 9 targets x 12 contents)"},
+           "nested_family": {"evaluations": nd_ev, "parts_judged": nd_parts, "containers": list(ND_CONTAINERS), "directories": list(ND_DIRS),
+                             "entries": list(ND_ENTRIES), "representative_names": _nd_rep_names(), "names_alone": len(_nd_names(ctx.tier)),
+                             "declared_types": len(_nd_mimes()), "per_kind": dict(sorted(nd_kinds.items())),
+                             "mails_parsed_differently_not_judged": nd_incomp,
+                             "bounds": "archives: catalogue (every extension of the default-configuration universe, lower+UPPER, + 5 stems and "
+                                       "Title case [thorough: all case variants] for the documented ones, + extension-less and __MACOSX names) x "
+                                       "3 directory prefixes x zip, tar [quick: 1 prefix for tar.gz, tar.bz2, tar.xz, 7z; thorough: 3]; every name "
+                                       "alone x zip, tar, 7z [thorough: 6 containers]; ordered pairs of the representative names x zip [thorough: "
+                                       "of all documented lower-case names x zip, tar, 7z, representative x the compressed tars]; same base name in "
+                                       "two directories / next to its hidden twin. attachments (EmailContent data class): every name x every "
+                                       "declared type alone; one declared type x ordered pairs with repetition of representative names [thorough: "
+                                       "all documented lower-case names]; one name x ordered pairs of declared types (all pairs for unroutable "
+                                       "names, ring successor for routable ones [thorough: all]); two names with a fitting declared type each; "
+                                       "thorough: triples of representative names per declared type (default configuration). attachments "
+                                       "through the real .eml and mbox readers: all representative names under one declared type in both orders, "
+                                       "per non-composite declared type [thorough: + ordered pairs, default configuration]"},
            "per_config": per_cfg, "outcomes": {k: v for k, v in sorted(outs.items())[:80]}, "samples": sorted(samples, key=str)[:6], "exhaustive": True}
     return {"coverage": cov, "failures": fails, "harness_errors": herr,
             "assumptions": ["reference table transcribed from the README format tables", "paths whose trailing extension is not documented "
                             "are only required to satisfy the equivalence and exception-type clauses (MIME fallback is host dependent by design)",
                             "filesystem layouts are built under a tempfile.mkdtemp directory whose own components contain no dot; forms the "
-                            "host file system refuses (symbolic or hard links) are skipped and listed in fs_family.skipped_forms"]}
+                            "host file system refuses (symbolic or hard links) are skipped and listed in fs_family.skipped_forms",
+                            "nested dispatch: hidden archive members (leading dot, __MACOSX/) and archives inside archives may be left "
+                            "unopened (if opened, then by the router's extractor); an attachment whose declared type is not a supported one, "
+                            "or whose name the router does not know, is only required to be treated as it is when it is the only attachment"]}
